@@ -35,8 +35,15 @@ PROGRAMS = {
                ["        FDB $%04X\n" % (0x1000 + 7 * k) for k in range(140)] +
                ["        FCB $55,$3C,$01,$02\n", "        LDA #$55\n", "        CWAI #$FF\n", "        RTS\n", "        END GO\n"],
     "bad": ["        ORG $0E00\n", "        LDA #$41\n", "        FOO 12\n"],
-    "undefined": ["        ORG $0E00\n", "        JMP NOWHERE\n"],
 }
+# program sizes at which the disk stream (5 header + data + 5 trailer bytes) ends exactly at, 1, 4 and 5 bytes behind a granule
+# boundary (2304 bytes), and the same two granules further: the trailer is then split over / alone in the last granule
+for _n in (2294, 2295, 2298, 2299, 4602, 6903):
+    PROGRAMS["gran%d" % _n] = ["        NAM g%d\n" % _n, "        ORG $2000\n", "GO      LDA #$41\n", "        RMB %d\n" % (_n - 5 - 2 * 20)] + \
+        ["        FDB $%04X\n" % (0x8001 + 259 * k) for k in range(20)] + ["        FDB $A55A\n", "EXIT    RTS\n", "        END EXIT\n"]
+PROGRAMS.update({
+    "undefined": ["        ORG $0E00\n", "        JMP NOWHERE\n"],
+})
 
 OLD_DATA = [0x12, 0x39, 0x55, 0x3C, 0x00, 0xFF] * 7
 
@@ -158,6 +165,8 @@ class CliAssembler:
         out.append({"id": "asm/combined/bin+cas+dsk/markers", "k": "all3", "combo": ("bin", "cas", "dsk"), "prog": "markers"})
         out.append({"id": "asm/combined/bin+cas+dsk/big51k", "k": "all3", "combo": ("bin", "cas", "dsk"), "prog": "big51k"})
         out.append({"id": "asm/combined/cas+dsk/big60k", "k": "all3", "combo": ("cas", "dsk"), "prog": "big60k"})
+        for n in (2294, 2295, 2298, 2299, 4602, 6903):
+            out.append({"id": "asm/combined/cas+dsk/gran%d" % n, "k": "all3", "combo": ("cas", "dsk"), "prog": "gran%d" % n})
         out.append({"id": "asm/sequence/cas-append-twice", "k": "seq", "t": "cas"})
         out.append({"id": "asm/sequence/dsk-append-twice", "k": "seq", "t": "dsk"})
         return out
@@ -445,6 +454,15 @@ FILESETS = {
                 ("ENTRY", "BIN", 2, 0, 0x1255, 0x3C01, [0x86, 0x55, 0x3C, 0xFF, 0x12, 0x39] + [0x12] * 300 + [0x55, 0x3C, 0x01, 0x02, 0x39]),
                 ("EXEC", "BIN", 2, 0, 0x0E00, 0x553C, [1, 2, 0x55, 0x3C, 0x00, 3, 4] * 40),
                 ("LAST", "BIN", 2, 0, 0x3C55, 0x5555, [0x55] * 255 + [0x3C] * 3)],
+    # every (type, flag) combination a header or a directory entry can carry: the kind decides which header / trailer bytes
+    # surround the data on a disk, and the writer and the reader must decide it the same way
+    "allkinds": [("MLFF", "BIN", 2, 0xFF, 0x3F00, 0x3F02, [(11 * i + 1) % 256 for i in range(300)]),
+                 ("T1BIN", "DAT", 1, 0, 0, 0, [(13 * i + 2) % 256 for i in range(40)]),
+                 ("T3FF", "TXT", 3, 0xFF, 0, 0, [65 + i % 26 for i in range(2400)]),
+                 ("T3BIN", "DAT", 3, 0, 0, 0, [(17 * i + 3) % 256 for i in range(2302)]),
+                 ("T0FF", "BAS", 0, 0xFF, 0, 0, [48 + i % 40 for i in range(700)]),
+                 ("MLFFBIG", "BIN", 2, 0xFF, 0x1000, 0x1234, [(19 * i + 4) % 256 for i in range(2295)]),
+                 ("PLAINML", "BIN", 2, 0, 0x2000, 0x2001, [1, 2, 3])],
     "with-empty": [("FIRST", "BIN", 2, 0, 0x1000, 0x1000, [1, 2]), ("EMPTY", "BIN", 2, 0, 0x2000, 0x2000, []),
                    ("LAST", "BIN", 2, 0, 0x3000, 0x3000, [5])],
 }
